@@ -17,7 +17,7 @@ pub fn spec() -> Spec {
     Spec {
         prop: "C07",
         level: "exploration",
-        rule: "Independent ledger model written from the controller/token Solidity source (per exact ticker bytes: balances, allowances incl. 'spender == owner => unlimited' and the controller as intermediate spender, checked total supply, zero-address rules); the RPC methods lower-case the ticker, user calls use exact bytes. Every operation's success is predicted and compared with the receipt status; after every block brc20_balance, token.balanceOf, token.totalSupply and controller.getTickerAddress are compared with the model for every (pkscript/signer, ticker), and sum(balances) = supply = deposits - withdrawals. Operations: deposits, withdrawals (sufficient/exact/insufficient/unknown ticker), controller transfer/approve/transferFrom, direct token calls, adversarial mint/burn/ownership calls from inscriptions, signed transactions, a forwarder contract and eth_call as the indexer address; reorgs roll the model back. Non-trivial = operation whose predicted outcome depended on a non-zero balance or allowance; distinct by (op kind, predicted outcome, ticker class).",
+        rule: "Independent ledger model written from the controller/token Solidity source (per exact ticker bytes: balances, allowances incl. 'spender == owner => unlimited' and the controller as intermediate spender, checked total supply, zero-address rules); the RPC methods lower-case the ticker, user calls use exact bytes. Every operation's success is predicted and compared with the receipt status; after every block brc20_balance, token.balanceOf, token.totalSupply and controller.getTickerAddress are compared with the model for every (pkscript/signer, ticker), and sum(balances) = supply = deposits - withdrawals. Operations: deposits, withdrawals (sufficient/exact/insufficient/unknown ticker), controller transfer/approve/transferFrom, direct token calls, adversarial mint/burn/ownership calls from inscriptions, signed transactions, a forwarder contract and eth_call as the indexer address; reorgs roll the model back. Holders have pkscripts of four shapes (34, 22, 2 and 81 bytes) written in lower, upper and mixed-case hex; amounts include 0, 1, 2^64-1..2^64+8, 2^128-1, 2^128, 2^255, 2^256-2, 2^256-1. Non-trivial = operation whose predicted outcome depended on a non-zero balance or allowance; distinct by (op kind, predicted outcome, ticker class).",
         assumptions: vec!["the model is derived from the Solidity source shipped in the repository, not from the deployed bytecode".into()],
         exhaustive: false,
         min_nontrivial: 2,
@@ -137,14 +137,27 @@ fn tickers() -> Vec<TickerClass> {
 }
 
 fn amount(rng: &mut Rng) -> U256 {
-    match rng.below(12) {
+    match rng.below(16) {
         0 => U256::ZERO,
         1 => U256::from(1u64),
         2 => U256::from(1u64) << 64,
         3 => U256::from(1u64) << 255,
         4 => U256::MAX,
         5 => U256::MAX - U256::from(1u64),
+        6 => U256::from(1u64) << 128,
+        7 => (U256::from(1u64) << 128) - U256::from(1u64),
+        8 => (U256::from(1u64) << 64) - U256::from(1u64),
+        9 => U256::from(u64::MAX) + U256::from(rng.range(1, 9)),
         _ => U256::from(rng.range(1, 1000)),
+    }
+}
+
+/// The same script bytes in another hex spelling.
+fn spell_pk(rng: &mut Rng, pk: &str) -> String {
+    match rng.below(4) {
+        0 => pk.to_uppercase(),
+        1 => pk.chars().enumerate().map(|(i, c)| if i % 2 == 0 { c.to_ascii_uppercase() } else { c }).collect(),
+        _ => pk.to_string(),
     }
 }
 
@@ -242,7 +255,12 @@ impl<'a> Run<'a> {
                 let want = tok.as_ref().map(|t| t.balance(h)).unwrap_or(U256::ZERO);
                 sum = sum.saturating_add(want);
                 if let Some(pk) = pk {
-                    for sp in &c.spellings {
+                    for (si, sp) in c.spellings.iter().enumerate() {
+                        let pk = &match si % 3 {
+                            1 => pk.to_uppercase(),
+                            2 => pk.chars().enumerate().map(|(i, c)| if i % 2 == 1 { c.to_ascii_uppercase() } else { c }).collect::<String>(),
+                            _ => pk.clone(),
+                        };
                         let r = self.d.inst.call("brc20_balance", json!({"pkscript": pk, "ticker": sp}));
                         let got = r.ok().and_then(|v| v.as_str().and_then(|s| U256::from_str_radix(s.trim_start_matches("0x"), 16).ok()));
                         rep.evaluations += 1;
@@ -282,7 +300,15 @@ fn one_case(ctx: &WorkerCtx, rep: &mut WorkerReport, case_seed: u64) {
     let mut rng = Rng::new(case_seed);
     let mut d = new_driver("C07");
     d.exec(Op::Init { hash: hist::ZERO_HASH.into(), ts: 1, height: 0 });
-    let pks: Vec<String> = (0..4).map(|i| format!("5120{}", hex::encode([0xb0 + i as u8; 32]))).collect();
+    // four holders with pkscripts of different shapes: taproot (34 bytes), p2wpkh (22), the
+    // shortest accepted script (2) and a long bare script (81); the hex digits include letters so
+    // that the spelling of the hex string (lower / upper / mixed case) is a real variation
+    let pks: Vec<String> = vec![
+        format!("5120{}", hex::encode([0xb0u8; 32])),
+        format!("0014{}", hex::encode([0xcdu8; 20])),
+        "6afe".to_string(),
+        format!("4c4f{}", hex::encode((0..79u8).map(|i| i.wrapping_mul(37) ^ 0xab).collect::<Vec<u8>>())),
+    ];
     let h = crate::hist::bh((0xc07u64) as u64);
     let r = d.exec(Op::Deploy { pk: pks[0].clone(), data: hist::hx(&asm::batcher_init()), enc: Enc::Hex, ctx: Ctx { ts: 2, hash: h.clone(), idx: 0 }, iid: format!("c07-batcher-{}", case_seed), len: 100_000, txid: hist::ZERO_HASH.into() });
     let Some(batcher) = hist::created_address(&r) else {
@@ -341,7 +367,7 @@ fn one_case(ctx: &WorkerCtx, rep: &mut WorkerReport, case_seed: u64) {
                         run.ledger = l;
                     }
                     run.uniq += 1;
-                    let r = run.d.exec(Op::Deposit { pk: run.pks[pk].clone(), ticker: sp.to_string(), amount: format!("0x{:x}", amt), ctx: Ctx { ts: blk.0, hash: blk.1.clone(), idx: run.d.ntx }, iid: format!("c07-{}-{}i0", case_seed % 100000, run.uniq) });
+                    let r = run.d.exec(Op::Deposit { pk: spell_pk(&mut rng, &run.pks[pk]), ticker: sp.to_string(), amount: format!("0x{:x}", amt), ctx: Ctx { ts: blk.0, hash: blk.1.clone(), idx: run.d.ntx }, iid: format!("c07-{}-{}i0", case_seed % 100000, run.uniq) });
                     got = hist::receipts_in(&r).first().map(|x| x["status"].as_str() == Some("0x1"));
                 }
                 1 => {
@@ -363,7 +389,7 @@ fn one_case(ctx: &WorkerCtx, rep: &mut WorkerReport, case_seed: u64) {
                         run.ledger = l;
                     }
                     run.uniq += 1;
-                    let r = run.d.exec(Op::Withdraw { pk: run.pks[pk].clone(), ticker: sp.to_string(), amount: format!("0x{:x}", amt), ctx: Ctx { ts: blk.0, hash: blk.1.clone(), idx: run.d.ntx }, iid: format!("c07-{}-{}i0", case_seed % 100000, run.uniq) });
+                    let r = run.d.exec(Op::Withdraw { pk: spell_pk(&mut rng, &run.pks[pk]), ticker: sp.to_string(), amount: format!("0x{:x}", amt), ctx: Ctx { ts: blk.0, hash: blk.1.clone(), idx: run.d.ntx }, iid: format!("c07-{}-{}i0", case_seed % 100000, run.uniq) });
                     got = hist::receipts_in(&r).first().map(|x| x["status"].as_str() == Some("0x1"));
                 }
                 2 => {
